@@ -7,6 +7,7 @@
 From Coq Require Import List Arith Bool NArith.
 Import ListNotations.
 Require Import MS.Model.RWRace MS.Proofs.RWRace_facts MS.Model.WalLoop MS.Model.WalLoopHB MS.Proofs.WalLoopHB_facts.
+Require MS.Model.CatLock MS.Proofs.CatLock_facts.
 
 (** (a) read-committed, full statement for the variable-length file: under every interleaving every
     finished read is error-free and equals a committed version of its slot. *)
@@ -86,6 +87,37 @@ Proof. repeat split; try (vm_compute; reflexivity). eexists; vm_compute; reflexi
 Example C18_no_false_race :
   races false have_access 2 [LStart; Enq 0; RdHave 0 true; SendTok 0; LRecv; LFl; LFl; LFl; LFl; LAckL] = [(0, 2)].
 Proof. vm_compute. reflexivity. Qed.
+
+(** (b') race freedom of the catalog directory maps ([datafile], [subDirs]; catalog/catalog.go): every
+    goroutine of a write or query request touches a bucket's directory entry — writes that roll a bucket
+    over into a new year insert into [datafile] (AddFile), creates/destroys change [subDirs], every request
+    reads them.  Model/CatLock.v is the RWMutex discipline; for any number of goroutines, any operation
+    lists in which every map write is done under the WRITE lock, and every schedule, no state is reachable
+    in which two goroutines are at conflicting map accesses.  checks/C18.py ties "every map write is under
+    the write lock, every read under a lock" to the source on every run. *)
+Theorem C18_catalog_race_free : forall progs ls s,
+  CatLock.disciplined progs = true -> CatLock.run_labels (CatLock.init progs) ls = Some s -> CatLock.racy s = false.
+Proof. exact CatLock_facts.catalog_race_free. Qed.
+Print Assumptions C18_catalog_race_free.
+
+(** the guard is necessary, and this is the seeded defect C18-1: AddFile doing its insert under RLock.
+    A year-rollover writer (RLock; WRITE; RUnlock) and a reader (RLock; read; RUnlock) both acquire the
+    read lock and stand at their accesses together. *)
+Example C18_catalog_undisciplined_races :
+  let progs := [[CatLock.mkop CatLock.MR CatLock.KWrite]; [CatLock.mkop CatLock.MR CatLock.KRead]] in
+  CatLock.disciplined progs = false /\
+  exists s, CatLock.run_labels (CatLock.init progs) [CatLock.Acq 0; CatLock.Acq 1] = Some s /\ CatLock.racy s = true.
+Proof. cbn. split; [reflexivity|]. eexists. split; [reflexivity|]. vm_compute. reflexivity. Qed.
+
+(** non-vacuity: a disciplined writer and two readers, an interleaving that is accepted *)
+Example C18_catalog_nonvacuous :
+  let progs := [[CatLock.mkop CatLock.MR CatLock.KRead; CatLock.mkop CatLock.MW CatLock.KWrite];
+                [CatLock.mkop CatLock.MR CatLock.KRead]; [CatLock.mkop CatLock.MR CatLock.KRead]] in
+  CatLock.disciplined progs = true /\
+  exists s, CatLock.run_labels (CatLock.init progs)
+              [CatLock.Acq 0; CatLock.Acq 1; CatLock.Acc 0; CatLock.Acc 1; CatLock.Rel 0; CatLock.Rel 1; CatLock.Acq 0;
+               CatLock.Acc 0; CatLock.Rel 0; CatLock.Acq 2; CatLock.Acc 2] = Some s.
+Proof. cbn. split; [reflexivity|]. eexists. vm_compute. reflexivity. Qed.
 
 Definition C18_full : Prop := C18_read_committed /\
   (forall ks cw cf ls s, WalLoop.run_labels (WalLoop.init ks cw cf) ls = Some s ->
